@@ -62,3 +62,21 @@ func VerifC30Hashes() {
 	}
 	rt.Reach("end")
 }
+
+// VerifC30Long: the whole context reaches the hash: for context lengths on both sides of 32/64/96/128
+// bytes (where a fixed staging buffer or block boundary would cut the input), two contexts of the same
+// length that differ anywhere give different hashes.
+func VerifC30Long() {
+	lens := []int{31, 33, 63, 65, 95, 96, 97, 127, 128, 129}
+	if rt.Tier() > 0 {
+		lens = append(lens, 32, 64, 159, 160, 161, 255, 256, 257)
+	}
+	sess := rt.Bytes("session", 32, 32)
+	p := rt.String("pid", 1, 1)
+	c1 := rt.BytesOfLen("ctx1", lens...)
+	c2 := rt.Bytes("ctx2", len(c1), len(c1))
+	h1 := ComputeProtocolHash(sess, protocol.ID(p), c1)
+	h2 := ComputeProtocolHash(sess, protocol.ID(p), c2)
+	rt.Assert("long contexts: equal hashes only for equal contexts", rt.Implies(rt.BytesEq(h1, h2), rt.BytesEq(c1, c2)))
+	rt.Reach("end")
+}
